@@ -24,6 +24,7 @@ def build(B, W=None):
     res = T.run(f, {"self": V("obj", None)}, {"self.quality_profile": lambda: prof})
     if res.kind != "list" or len(res.term) != 4:
         raise RuntimeError("unexpected return shape")
+    build.approx = list(T.approximations)
     return z3, W, P, [v.term for v in res.term]
 
 
@@ -80,6 +81,9 @@ def run(ctx):
         got = tuple(z3.simplify(z3.substitute(t, *sub)).as_signed_long() for t in (easy, verbose, hard, unm))
         nval += 1
         if got != real(p):
+            if getattr(build, "approx", None):
+                ctx.notes.append(f"approximate encoding differs from the real method on {p}: {got} vs {real(p)}")
+                continue
             ctx.harness_error("translator-validation", f"encoding gives {got}, real method gives {real(p)} on {p}")
             return
     ctx.extra["translator_validated_on"] = nval
@@ -136,7 +140,9 @@ def run(ctx):
             if r["verdict"] != "sat":
                 ctx.harness_error(ident, f"reachability witness not SAT: {r['answers']}")
             continue
-        if r["verdict"] == "unsat":
+        if r["verdict"] == "unsat" and getattr(build, "approx", None):
+            ctx.inconclusive_(ident, f"unsat, but the function uses constructs encoded only approximately ({build.approx}); not claimed", r["seconds"])
+        elif r["verdict"] == "unsat":
             ctx.discharge(ident, 0, r["seconds"], {"query": ident, "result": "unsat", "solvers": r["answers"]})
         elif r["verdict"] == "sat":
             p = [int(r["model"].get(f"p{i}", 0)) for i in range(4)]
